@@ -29,6 +29,10 @@ def inRange (M : LinProb α) (p q : Nat) : Bool := p < M.n && q < M.n
 
 def step (io : ScalarIO α) (M : LinProb α) (line : String) : LinProb α × String :=
   match line.trimAscii.toString.splitOn " " with
+  | ["recreate", n, bw] =>       -- `Create()` called again on the same object: a blank system of the new size and band hint
+    match n.toNat?, bw.toNat? with
+    | some n, some bw => (create n bw, "ok")
+    | _, _ => (M, "bad-op")
   | ["create", n, bw] =>
     match n.toNat?, bw.toNat? with
     | some n, some bw => (create n bw, "ok")
